@@ -185,8 +185,17 @@ def gen_time_history(rng):
     for _ in range(rng.randint(2, 7)):
         c = rng.random()
         i = rng.randrange(n)
-        if c < 0.25:
+        if c < 0.18:
             ops.append(("copy", i)); n += 1
+        elif c < 0.25:
+            # a second TimeScale object over the SAME inner linear scale (`TimeScale(lin)` twice, or `copy.copy(scale)`): the two are one scale
+            # with two handles — what is set through one is what the other reports and maps by
+            ops.append(("share", i, rng.choice(["linear", "shallow"]))); n += 1
+            if rng.random() < 0.6:
+                t = rng.randint(LO, HI)
+                ops.append(("call", n - 1, t))
+                a, b = gen_domain(rng)
+                ops.append(rng.choice([("domain", i, a, b), ("range", i, rng.choice([0, -20, 7.5]), rng.choice([100, 360, 1000, 640]))]))
         elif c < 0.5:
             a, b = gen_domain(rng)
             ops.append(("domain", i, a, b))
@@ -207,23 +216,38 @@ def gen_time_history(rng):
 
 
 EXPECTED_DOMAINS = []
+CALLED = []                  # per object: instants it was asked to map DURING the history (asked again at the end)
 
 
 def run_time_history(ops, m):
     """returns per object (reported domain in ms, reported range, ticks(m) in ms) after the history"""
-    from labella.scale import TimeScale
-    objs = [TimeScale()]
+    from labella.scale import TimeScale, LinearScale
+    import copy as _copy
+    lin0 = LinearScale()
+    objs = [TimeScale(lin0)]
+    linear_of = {0: lin0}    # the inner linear scales the CALLER built and handed over (a copy() makes its own)
+    grp = [0]                # objects over one inner linear scale form a group: one scale, several handles
     passed = {}
-    expect = [None]          # the domain each object was last GIVEN (None once nice() has moved it): what it must report at the end
+    expect = [None]          # per group: the domain it was last GIVEN (None once nice() has moved it): what every handle must report at the end
+    CALLED[:] = [[]]
     EXPECTED_DOMAINS[:] = []
     for o in ops:
         s = objs[o[1]]
         if o[0] == "nice":
-            expect[o[1]] = None
+            expect[grp[o[1]]] = None
         elif o[0] == "copy":
-            expect.append(expect[o[1]])
+            expect.append(expect[grp[o[1]]]); grp.append(len(expect) - 1); CALLED.append([])
+        elif o[0] == "share":
+            grp.append(grp[o[1]]); CALLED.append([])
+            if o[2] == "linear" and o[1] in linear_of:
+                linear_of[len(objs)] = linear_of[o[1]]
+                objs.append(TimeScale(linear_of[o[1]]))
+            else:
+                if o[1] in linear_of:
+                    linear_of[len(objs)] = linear_of[o[1]]
+                objs.append(_copy.copy(s))
         if o[0] == "domain":
-            expect[o[1]] = [o[2], o[3]]
+            expect[grp[o[1]]] = [o[2], o[3]]
             s.domain([to_dt(o[2]), to_dt(o[3])])
         elif o[0] in ("range", "range!"):
             lst = passed.get(o[1]) if o[0] == "range!" else None
@@ -256,12 +280,14 @@ def run_time_history(ops, m):
                 got.append(to_dt(0))
         elif o[0] == "call":
             s(to_dt(o[2]))
+            if o[2] not in CALLED[o[1]] and len(CALLED[o[1]]) < 3:
+                CALLED[o[1]].append(o[2])
     out = []
     for s in objs:
         d = [to_ms(x) for x in s.domain()]
         tk = s.ticks(m) if m is not None else s.ticks()
         out.append((d, list(s.range()), tk, s))
-    EXPECTED_DOMAINS[:] = expect
+    EXPECTED_DOMAINS[:] = [expect[g] for g in grp]
     return out
 
 # ------------------------------------------------------------------------------------------- C16
@@ -360,7 +386,7 @@ def body_c15(tier, seed, rep, only_prop=False, scale=1):
                         continue
                     lo, hi = min(d), max(d)
                     w = max(1, (hi - lo) // 3)
-                    for t in (d[0], d[1], rng.randint(lo, hi), max(LO, lo - w), min(HI, hi + w)):      # also instants OUTSIDE the domain: an unclamped scale (and every copy of it) extends the same line
+                    for t in [d[0], d[1], rng.randint(lo, hi), max(LO, lo - w), min(HI, hi + w)] + list(CALLED[k]):      # also instants OUTSIDE the domain: an unclamped scale (and every copy of it) extends the same line
                         y = s(to_dt(t))
                         tinv = to_ms(s.invert(y))
                         lines.append("tscale|%d|%d|%s|%s|%d|%s|%s" % (d[0], d[1], fr(r[0]), fr(r[1]), t, fr(y), fr(tinv)))
